@@ -1,6 +1,7 @@
 package rules
 
 import (
+	"sort"
 	"fmt"
 	"go/token"
 	"go/types"
@@ -103,9 +104,10 @@ func checkC12(rep *core.Report) {
 	r3 := rep.Rule("R12.3", "published payload is a fresh copy of the encode buffer", 4)
 	r4 := rep.Rule("R12.4", "encode buffer reset on every path to an encode; buffer is goroutine-local", 3)
 	r5 := rep.Rule("R12.5", "receive loop obtains its buffer in the same iteration it reads into it", 4)
-	r6 := rep.Rule("R12.6", "mirror copy lives in its own pool buffer", 2)
+	r6 := rep.Rule("R12.6", "mirror copy lives in its own pool buffer; one pool per protocol", 6)
 	r7 := rep.Rule("R12.7", "pool uniformity: New and every Put use the same size option; every Get is asserted to []byte", 10)
 	r8 := rep.Rule("R12.8", "decoded objects do not outlive their iteration; decoders do not recycle buffers", 5)
+	checkPoolPerPipeline(prog, r6)
 	r9 := rep.Rule("R12.9", "nothing a worker runs (decode, encode, publish) writes unsynchronised package-level state", 1)
 	{
 		var workers []*ssa.Function
@@ -551,4 +553,43 @@ func checkReleaseDiscipline(prog *core.Program, r1, r2 *core.RuleRun, fn *ssa.Fu
 	mx := maxAll(res)
 	r2.Check(mx <= 1, name+":release-at-most-once", puts[0].Pos(), fmt.Sprintf("%d release site(s); at most one executes per iteration", len(puts)),
 		fmt.Sprintf("on some path one iteration returns the receive buffer to the pool %s times: two later datagrams are read into the same backing array, one is published twice and the other never", strings.TrimSuffix(fmtRange(res, "latch"), "")))
+}
+
+// checkPoolPerPipeline: the receive loop, the workers and the mirror loop of one protocol exchange buffers through
+// channels, so they must all take from and return to the same pool: a buffer taken from another protocol's pool has
+// that pool's size, and is later re-sliced and recycled with this protocol's size.
+func checkPoolPerPipeline(prog *core.Program, rr *core.RuleRun) {
+	loops, disps := mirrorLoops(prog)
+	for _, p := range findPipelines(prog) {
+		if p.run == nil || p.worker == nil || p.udpCh == nil {
+			continue
+		}
+		msgT := chanElem(core.Deref(p.udpCh.Type()))
+		fns := []*ssa.Function{p.run, p.worker}
+		for _, m := range append(append([]*ssa.Function{}, loops...), disps...) {
+			for _, par := range m.Params {
+				if et := chanElem(par.Type()); et != nil && msgT != nil && types.Identical(et, msgT) {
+					fns = append(fns, m)
+				}
+			}
+		}
+		used := map[*ssa.Global][]string{}
+		for _, fn := range fns {
+			allInstrs(fn, func(ins ssa.Instruction) {
+				if c, ok := ins.(ssa.CallInstruction); ok {
+					if g, op := poolOf(c); g != nil {
+						used[g] = append(used[g], core.FuncName(fn)+":"+op)
+					}
+				}
+			})
+		}
+		var names []string
+		for g, us := range used {
+			sort.Strings(us)
+			names = append(names, g.Name()+" ("+strings.Join(us, ", ")+")")
+		}
+		sort.Strings(names)
+		rr.Check(len(used) == 1, p.name+":one-pool", p.run.Pos(), "receive loop, workers and mirror loop use one pool: "+strings.Join(names, ""),
+			fmt.Sprintf("the functions of one protocol use %d different pools: %s. A buffer from another pool has that pool's size; re-slicing it to this protocol's size panics when this size is larger, and recycling it into this pool hands out short buffers", len(used), strings.Join(names, "; ")))
+	}
 }
